@@ -82,8 +82,7 @@ def main(tier, seed):
     for part in core.pmap(_run, jobs):
         rep.merge(part)
     c = rep.counters
-    if c["faults.fired"] == 0:
-        raise core.Inconclusive("no injected fault fired")
+    rep.require(not (c["faults.fired"] == 0), "no injected fault fired")
     rep.assumptions += ["faults are injected at the libidn2 boundary (idn2_to_ascii_8z) by link-time wrapping; the fresh-object "
                         "reference run is exempt from injection"]
     return rep.finish(c["is_email"], rep.distinct_count,
